@@ -189,7 +189,8 @@ def systematic_cases():
                 continue
             ops = [{"op": "open", "path": path, "mode": mode, "var": "h"}]
             if mode == "r":
-                ops += [{"op": "read", "h": "h", "n": 10}, {"op": "read_line", "h": "h"}, {"op": "read_to_string", "h": "h"}, {"op": "read", "h": "h", "n": None}]
+                ops += [{"op": "read", "h": "h", "n": 10}, {"op": "read_line", "h": "h"}, {"op": "read_to_string", "h": "h"}, {"op": "read", "h": "h", "n": None},
+                        {"op": "read", "h": "h", "n": 1}, {"op": "read", "h": "h", "n": 0}]
             else:
                 ops += [{"op": "write", "h": "h", "data": _wd("small")}, {"op": "flush", "h": "h"}, {"op": "write", "h": "h", "data": _wd("big")},
                         {"op": "write", "h": "h", "data": _wd("small")}, {"op": "flush", "h": "h"}, {"op": "write", "h": "h", "data": _wd("pkt_big")},
@@ -227,7 +228,7 @@ def systematic_cases():
                 pre = [{"op": "open", "path": GOOD, "mode": "r", "var": "h"}]
                 if warm:
                     pre.append({"op": "read", "h": "h", "n": 7})
-                for opd in ({"op": "read", "h": "h", "n": 10}, {"op": "read", "h": "h", "n": 12000}, {"op": "read", "h": "h", "n": None}, {"op": "read_line", "h": "h"}, {"op": "read_to_string", "h": "h"}):
+                for opd in ({"op": "read", "h": "h", "n": 1}, {"op": "read", "h": "h", "n": 10}, {"op": "read", "h": "h", "n": 12000}, {"op": "read", "h": "h", "n": None}, {"op": "read_line", "h": "h"}, {"op": "read_to_string", "h": "h"}):
                     o = dict(opd, fault=["R", nth, act, 0])
                     case(pre + [o, {"op": "read", "h": "h", "n": 5}], note="%s with %s on read(2) #%d" % (opd["op"], ACTION_NAMES[act], nth))
                 # pcap
